@@ -97,7 +97,7 @@ def expect_counterexample(pid, module, cfg_body, constants, what):
     rc, out, wall = vlib._java(module + ".tla", cfg, os.path.join(wd, "meta_cex_" + module), min(vlib.NCPU, 4), timeout=1500, xmx=vlib.XMX)
     with open(os.path.join(wd, module + "_cex.log"), "w") as f:
         f.write(out)
-    if "Temporal properties were violated" not in out and "is violated" not in out:
+    if not re.search(r"Temporal propert(y \w+ was|ies were) violated", out):
         raise vlib.ToolError("expected TLC to refute %s, it did not (see %s_cex.log)" % (what, module))
     states = len(re.findall(r"^State \d+:", out, re.M))
     vlib.log("TLC %s: %s refuted as expected, counterexample of %d states, %.1fs" % (module, what, states, wall))
@@ -113,15 +113,18 @@ def model_check(pid, rep, quick):
     for obs in ((1,) if quick else (0, 1, 2)):
         st = vlib.tlc_mc(pid, "MC_StreamSched", MC_SAFE, dict(base, RefillSame="FALSE", WatchSet="{%d}" % obs), need_actions=need)
         rep.add_mc("sched/MC_StreamSched/design/wait-of-%d" % obs, st)
-    live = dict(MC_BASE)   # liveness on the smaller environment in both tiers
+    # liveness on the smaller environment; quick: no stream window at all (credit is the only flow control)
+    live = dict(MC_BASE, Windowed="{}" if quick else "{1}")
+    need_live = [a for a in need if not (quick and a == "DoWindowUpdate")]
     # 2. documented design: NoStarvation (liveness) under fair packet assembly; history accounting off
     st = vlib.tlc_mc(pid, "MC_StreamSched", "SPECIFICATION MCSpec\nPROPERTY NoStarvation\nCHECK_DEADLOCK FALSE\n",
-                     dict(live, RefillSame="FALSE", WatchSet="{}"), need_actions=need)
+                     dict(live, RefillSame="FALSE", WatchSet="{}"), need_actions=need_live)
     rep.add_mc("sched/MC_StreamSched/design/NoStarvation", st)
-    # 3. the code's refill rule: one visit per round still holds, service is guaranteed only if the others run dry
-    st = vlib.tlc_mc(pid, "MC_StreamSched", "SPECIFICATION MCSpec\nINVARIANT MCInv\nPROPERTY CodeGuarantee\nCHECK_DEADLOCK FALSE\n",
-                     dict(live, RefillSame="TRUE", WatchSet="{1}"), need_actions=need)
-    rep.add_mc("sched/MC_StreamSched/code/CodeGuarantee", st)
+    # 3. the code's refill rule: one visit per round still holds, service is guaranteed only once the writes stop
+    if not quick:
+        st = vlib.tlc_mc(pid, "MC_StreamSched", "SPECIFICATION MCSpec\nINVARIANT MCInv\nPROPERTY CodeGuarantee\nCHECK_DEADLOCK FALSE\n",
+                         dict(live, RefillSame="TRUE", WatchSet="{1}"), need_actions=need_live)
+        rep.add_mc("sched/MC_StreamSched/code/CodeGuarantee", st)
     # 4. ... and NoStarvation itself is refuted for it (explains the recorded deviation at design level)
     cex = expect_counterexample(pid, "MC_StreamSched", "SPECIFICATION MCSpec\nPROPERTY NoStarvation\nCHECK_DEADLOCK FALSE\n",
                                 dict(live, RefillSame="TRUE", WatchSet="{}"), "NoStarvation under the code's refill rule")
